@@ -310,6 +310,60 @@ class RiemannAdm(Obligation):
         cx.gt(pat + ': right star density > 0', cx['rx2'], 0, when=mono)
 
 
+class RiemannSelect(Obligation):
+    """the wave pattern the driver selects from the Gottlieb-Groth limiting velocities is the admissible one: decided without
+    the root.  With F the increasing form of the selected pattern's star-pressure function (C17.riemann.mono), p* >= p0 iff
+    F(p0) <= 0: a side treated as a shock needs F(p_side) <= 0, a side treated as a rarefaction F(p_side) >= 0."""
+
+    def __init__(self, gl, gr):
+        self.gl, self.gr = gl, gr
+        self.id = 'C17.riemann.select.gl=%s.gr=%s' % (gl, gr)
+        self.modules = R.modules()
+        from symx import stubs
+        d = R.shim_extra(cut=False)
+        d['bisect'] = stubs.cut_here        # the driver is cut where it starts the root search: the pattern is chosen by then
+        self.extra_shim = d
+        u = H.mod(R.UM)
+        self.functions = [H.mod(R.RM).RiemannIGEOS.driver, u.u_SCN, u.u_NCS, u.u_NCR, u.u_RCN, u.u_RCVR, u.SCS_call, u.SCR_call,
+                          u.RCS_call, u.RCR_call]
+        self.bounds = 'left/right states symbolic; gamma pair fixed; every branch of the pattern selection = a path'
+        self.max_paths = 200
+        self.timeout_s = 30
+        self.skip_validation = True
+
+    def build(self, mk):
+        from symx import stubs
+        from .C09 import FORM
+        m, u = H.mod(R.RM), H.mod(R.UM)
+        st = {k: mk(k) for k in R.STATE}
+        kw = dict(st)
+        kw.update(gl=K(mk, self.gl), gr=K(mk, self.gr), xd0=mk('xd0'), xmin=mk('xd0') - 1, xmax=mk('xd0') + 1, t=mk('t'),
+                  num_x_pts=2)
+        inst = m.RiemannIGEOS(**kw)
+        if Mode.symbolic(mk):
+            try:
+                inst.driver()
+                raise RuntimeError('driver was not cut')
+            except stubs.Cut as c:
+                pat = R.PATTERNS[c.locals['soln_type']]
+        else:
+            inst.driver()
+            pat = R.PATTERNS[inst.soln_type]
+        call = getattr(u, pat + '_call')
+        return {'F_pl': FORM[pat] * call(st['pl'], inst), 'F_pr': FORM[pat] * call(st['pr'], inst), '_pattern': pat}
+
+    def domain(self, V):
+        return R.domain(V)
+
+    def claims(self, cx):
+        pat = cx['_pattern']
+        for side, F, idx in (('left', cx['F_pl'], 0), ('right', cx['F_pr'], 2)):
+            if pat[idx] == 'S':
+                cx.le('%s selected: %s wave is a shock, so F(p_%s) <= 0 (p* >= p_%s: compressive)' % (pat, side, side, side), F, 0)
+            else:
+                cx.ge('%s selected: %s wave is a rarefaction, so F(p_%s) >= 0 (p* <= p_%s)' % (pat, side, side, side), F, 0)
+
+
 def obligations(tier):
     obs = []
     for g in (1, 2, 3):
@@ -327,6 +381,7 @@ def obligations(tier):
     for gam in (H.G_QUICK if tier == 'quick' else H.G_FULL):
         obs.append(RiemannMono(gam))
     for gl, gr in (R.GAMMA_PAIRS_QUICK if tier == 'quick' else R.GAMMA_PAIRS_FULL):
+        obs.append(RiemannSelect(gl, gr))
         for pat in ('SCS', 'SCR', 'RCS', 'RCR'):
             obs.append(RiemannAdm(gl, gr, pat))
     return obs
